@@ -202,6 +202,10 @@ func checkCloseOnce(x *Ctx, name string) {
 		x.Violate("setup-after-end-reported", "", fmt.Sprintf("SetupRemoteDevice was called (event %d) after HandleConnectionClosed had been reported for the same connection (causes present: %v)", setupAfterEnd, keys(causes)))
 		return
 	}
+	if n == 0 && causes["transport-error"] || n == 0 && causes["transport-errorasync"] {
+		x.Violate("connection-end-not-reported", "transport-error", fmt.Sprintf("a transport error was reported to the connection (the ws layer has closed itself by then) but HandleConnectionClosed was never called (causes present: %v)", keys(causes)))
+		return
+	}
 	if tclose > 0 && n == 0 {
 		x.Violate("connection-end-not-reported", "", fmt.Sprintf("the transport was closed but HandleConnectionClosed was never called (causes present: %v)", keys(causes)))
 		return
